@@ -1222,14 +1222,14 @@ impl<'ast, 'res> Resolver<'ast, 'res> {
                 let t = self.infer_expr_type(expr)?;
                 match op {
                     UnaryOp::Not => {
-                        if t == ValueType::Bool || t == ValueType::Null {
+                        if t == ValueType::Bool || t == ValueType::Null || t == ValueType::Dynamic {
                             Some(ValueType::Bool)
                         } else {
                             None
                         }
                     }
                     UnaryOp::Minus => {
-                        if t == ValueType::Number {
+                        if t == ValueType::Number || t == ValueType::Dynamic {
                             Some(ValueType::Number)
                         } else {
                             None
